@@ -23,4 +23,8 @@ def instances(build, tier, seed):
         L.append(Inst('descr.%s' % sq, 'h_emittype.c', {'SEQ': '"%s"' % sq}, units=ALL, overrides=['fatal', 'xmalloc', 'error'], unwind=10, unwindset=['streq.0:14'] + ['main.%d:34' % i for i in range(16)],
                       native_units=['tree', 'token', 'map', 'expr', 'eval', 'init', 'scope', 'targ', 'attr', 'stmt', 'utf', 'scan', 'pp'], family='descr',
                       timeout=300, bound={'members': sq, 'bit-field widths': 'symbolic'}))
+    # the descriptions are derived from the member layout decl.c:addmember computes: the same struct/union definitions through the real parser with
+    # sizeof/_Alignof/offsetof pinned to the platform compiler's values (shared with C06)
+    import c06
+    L += c06.abi_instances(tier, seed, fam='layout-abi')
     return L
